@@ -5,6 +5,7 @@ From Coq Require Import List Bool Ascii Arith ZArith String.
 Import ListNotations.
 Require Import MV.Model.ChainParser MV.Model.ConfigLoader MV.Spec.ChainName MV.Spec.Notations MV.Spec.ConfigSchema.
 Require Import MV.Proofs.ChainParserP MV.Proofs.ChainResolveP MV.Proofs.NotationsP.
+Require Import MV.Model.ChainSources MV.Proofs.ChainSourcesP.
 Open Scope list_scope.
 
 (* ------------------------------------------------------------------------------------------------------------
@@ -228,6 +229,85 @@ Proof. vm_compute. repeat split. Qed.
 Print Assumptions C16_subcolumn_name_ambiguous_refuted.
 
 (* ------------------------------------------------------------------------------------------------------------
+   8. The calculation reads what the planner declared.  Both sides are functions of (feature name, options):
+        plan_sources = FeatureChainParserMixin.input_features            (what the planner resolves as inputs)
+        calc_sources = FeatureChainParserMixin._extract_source_features  (the columns calculate_feature reads)
+      with the precedence of the code on BOTH sides: the chained name first, configured in_features only when the name
+      does not parse.  For every group, name and options — chained name with in_features (equal to the predecessor,
+      the root, another ancestor, any other value, any spelling), plain name with in_features, chained name alone —
+      whenever planning succeeds the calculation succeeds and reads exactly the planned names.                   *)
+Theorem C16_calc_reads_what_was_planned : forall g name gr cx fs, plan_sources g name gr cx = Ok fs ->
+  exists ns, calc_sources g name gr cx = Ok ns /\ same_names ns fs.
+Proof. exact calc_reads_what_was_planned_l. Qed.
+Print Assumptions C16_calc_reads_what_was_planned.
+
+(* the same over an arbitrary parse result, i.e. for every pattern a group may declare *)
+Theorem C16_calc_reads_what_was_planned_any_pattern : forall g p inf fs, plan_of g p inf = Ok fs ->
+  exists ns, calc_of p inf = Ok ns /\ same_names ns fs.
+Proof. exact calc_reads_planned_of. Qed.
+Print Assumptions C16_calc_reads_what_was_planned_any_pattern.
+
+(* plan_sources is the model of input_features that the correspondence `inputs` ties to the code *)
+Theorem C16_plan_sources_is_input_features : forall g name gr cx, plan_sources g name gr cx = input_features g name gr cx.
+Proof. exact plan_sources_is_input_features. Qed.
+Print Assumptions C16_plan_sources_is_input_features.
+
+(* a name that parses governs both sides whatever is configured; a name that does not parse: both read the options *)
+Theorem C16_chained_name_governs : forall g op src inf inf', src <> [] ->
+  calc_of (Parsed op src) inf = Ok (map PStr (split_on amp src)) /\
+  calc_of (Parsed op src) inf = calc_of (Parsed op src) inf' /\
+  plan_of g (Parsed op src) inf = plan_of g (Parsed op src) inf'.
+Proof. exact chained_name_governs_l. Qed.
+Print Assumptions C16_chained_name_governs.
+
+Theorem C16_plain_name_reads_config : forall g inf fs, get_in_features inf = Ok fs -> count_ok g (List.length fs) = true ->
+  plan_of g NoParse inf = Ok fs /\ calc_of NoParse inf = Ok (names_of fs).
+Proof. exact plain_name_reads_config_l. Qed.
+Print Assumptions C16_plain_name_reads_config.
+
+(* chains of EVERY length over any well-formed universe: the last link of  src__op1__...__opk  plans and reads
+   src__op1__...__op(k-1), for ANY options next to the name (in_features naming the root, an ancestor, another column) *)
+Theorem C16_chain_last_link_sources : forall gs ops i op src gr cx,
+  universe_ok gs = true -> chain_ok gs (ops ++ [(i, op)]) = true -> wf_atom src = true ->
+  plan_sources (grp_at gs i) (chain_name gs src (ops ++ [(i, op)])) gr cx = Ok [feat (chain_name gs src ops)] /\
+  calc_sources (grp_at gs i) (chain_name gs src (ops ++ [(i, op)])) gr cx = Ok [PStr (chain_name gs src ops)] /\
+  calc_column (grp_at gs i) (chain_name gs src (ops ++ [(i, op)])) gr cx = Ok (PStr (chain_name gs src ops)).
+Proof. exact chain_last_link_l. Qed.
+Print Assumptions C16_chain_last_link_sources.
+
+(* the time-window group plans with its own input_features (no "&" split, the reference-time column t added): the one
+   column the calculation reads is planned, and the only other planned input is t *)
+Theorem C16_time_window_calc_reads_planned : forall t p inf fs,
+  (forall op, p <> Parsed op []) -> (forall op src, p = Parsed op src -> contains amp src = false) ->
+  plan_tw_of t p inf = Ok fs ->
+  exists c, calc_of p inf = Ok [c] /\ In c (names_of fs) /\ forall x, In x (names_of fs) -> x = c \/ x = PStr t.
+Proof. exact tw_calc_reads_planned_l. Qed.
+Print Assumptions C16_time_window_calc_reads_planned.
+
+(* The OTHER precedence on the calculation side only (configured in_features first, the name only when nothing is
+   configured) is NOT the code.  FULL STATEMENT for it (refuted): plan_sources .. = Ok fs -> calc_sources_cfgfirst .. reads fs.
+   It agrees with the code exactly outside kf_both (something configured AND a name that parses), and inside that
+   domain the last operation of price__mean_imputed__sum_aggr with in_features = price reads the raw ancestor column. *)
+Theorem C16_cfgfirst_differs_only_with_both : forall p inf, kf_both p inf = false -> calc_of_cfgfirst p inf = calc_of p inf.
+Proof. exact cfgfirst_agrees_outside_l. Qed.
+Print Assumptions C16_cfgfirst_differs_only_with_both.
+
+Definition wit_both_ctx : list (str * pv) := [(k_in_features, PSet true [PStr (lit "price")])].
+Theorem C16_calc_reads_what_was_planned_cfgfirst_refuted :
+  plan_sources g_aggr (lit "price__mean_imputed__sum_aggr") [] wit_both_ctx = Ok [feat (lit "price__mean_imputed")] /\
+  calc_sources g_aggr (lit "price__mean_imputed__sum_aggr") [] wit_both_ctx = Ok [PStr (lit "price__mean_imputed")] /\
+  calc_sources_cfgfirst g_aggr (lit "price__mean_imputed__sum_aggr") [] wit_both_ctx = Ok [PStr (lit "price")] /\
+  ~ (forall g name gr cx fs, plan_sources g name gr cx = Ok fs ->
+       exists ns, calc_sources_cfgfirst g name gr cx = Ok ns /\ same_names ns fs).
+Proof.
+  repeat split; try (vm_compute; reflexivity).
+  intros H. destruct (H g_aggr (lit "price__mean_imputed__sum_aggr") [] wit_both_ctx _ eq_refl) as (ns & E & S).
+  vm_compute in E. injection E as <-. destruct (S (PStr (lit "price"))) as [S1 _].
+  specialize (S1 (or_introl eq_refl)). vm_compute in S1. destruct S1 as [S1|[]]. discriminate S1.
+Qed.
+Print Assumptions C16_calc_reads_what_was_planned_cfgfirst_refuted.
+
+(* ------------------------------------------------------------------------------------------------------------
    Non-vacuity: the universe of the two built-in groups is well formed; a depth-3 chain in the three notations.   *)
 Definition ex_ph (n : nat) : str := lit "ph" ++ [ascii_of_nat (48 + n)].
 Definition ex_ops : list (nat * str) := [(1, lit "mean"); (0, lit "max"); (0, lit "sum")].
@@ -256,5 +336,12 @@ Example C16_examples :
   parse_feature_name [lit "aggr"] (lit "a__s-m_aggr") = NoParse /\
   parse_feature_name [lit "aggr"] (lit "a__sum_aggr" ++ [nl]) = Parsed (lit "sum") (lit "a") /\
   input_features g_aggr (lit "a&b__sum_aggr") [] [] = Err EValue /\
+  (* plain name + in_features, chained name alone, chained name + in_features naming the root *)
+  calc_sources g_aggr (lit "out") [] [(k_in_features, PStr (lit "price__mean_imputed"))] = Ok [PStr (lit "price__mean_imputed")] /\
+  calc_sources g_mv (lit "price__mean_imputed") [] [] = Ok [PStr (lit "price")] /\
+  calc_column g_aggr (lit "price__mean_imputed__sum_aggr") [] [(k_in_features, PStr (lit "price"))] = Ok (PStr (lit "price__mean_imputed")) /\
+  kf_both (parse_feature_name (g_sufs g_aggr) (lit "price__mean_imputed__sum_aggr")) (PStr (lit "price")) = true /\
+  plan_tw_of (lit "reference_time") (Parsed (lit "sum") (lit "price__mean_imputed")) (PStr (lit "price"))
+    = Ok [feat (lit "price__mean_imputed"); feat (lit "reference_time")] /\
   doc_valid (json_chain [g_aggr; g_mv] ex_ph (lit "price") (rev ex_ops)) = true.
 Proof. vm_compute. repeat split. Qed.
